@@ -171,7 +171,7 @@ void blockval_world(const Plan &p, Result &res) {
                 res.counts["distributed_levels_checked"]++; res.counts["block_valued_levels_checked"]++;
                 const long nA = L.nA, nC = L.nC;
                 // R is the block adjoint of P: the transpose of its scalar expansion
-                bool rt = L.R.size() == L.P.size(); if (rt) for (Entries::const_iterator it = L.P.begin(); it != L.P.end(); ++it) { Entries::const_iterator q = L.R.find(std::make_pair(it->first.second, it->first.first)); if (q == L.R.end() || q->second != it->second) { rt = false; break; } }
+                bool rt = L.R.size() == L.P.size(); if (rt) for (Entries::const_iterator it = L.P.begin(); it != L.P.end(); ++it) { Entries::const_iterator q = L.R.find(std::make_pair(it->first.second, it->first.first)); if (q == L.R.end() || (q->second != it->second && !(q->second != q->second && it->second != it->second))) { rt = false; break; } }
                 if (!rt) res.fail(sig("coarsening-structure", "R=P^T", fmt("level %zu", l)));
                 std::vector<long double> AP((size_t)nA * nC, 0.0L), AbsAP((size_t)nA * nC, 0.0L);
                 for (Entries::const_iterator a = L.A.begin(); a != L.A.end(); ++a) for (Entries::const_iterator q = L.P.lower_bound(std::make_pair(a->first.second, -1L)); q != L.P.end() && q->first.first == a->first.second; ++q) { AP[(size_t)a->first.first * nC + q->first.second] += (long double)a->second * q->second; AbsAP[(size_t)a->first.first * nC + q->first.second] += std::fabs((long double)a->second * q->second); }
